@@ -179,3 +179,111 @@ Example C01_examples_well_scoped :
   /\ (* and so is a statement in an operand slot *)
   well_scoped (prog [("main", fn [] [CSetGlobalVar (s "g") (CSetVar (s "x") (CScalarInt 1))])]) = false.
 Proof. vm_compute. repeat split; reflexivity. Qed.
+
+(* ---- the former findings of the differential check, repaired in the crate ----
+   R-1 (662697a), R-2 (d723a2c), R-3 (6d4c9a8), R-4 (53336fc), R-5 (a526e90).  The programs are the
+   witnesses of findings/C01/*.json; they run as the first cases of every C01 check, where the real
+   compiler + VM must produce exactly what is computed here (C01Check.check1 has no known classes any
+   more).  What the examples state: the meaning the language gives to these programs, and that the
+   programs lie in the classes that used to label the disagreement. *)
+Definition log_of (r : presult) : option (okind * list (str * list tree)) :=
+  match r with PObs o => Some (ob_kind o, ob_log o) | _ => None end.
+Definition print_closures : card :=
+  CForEach None None (Some (s "v")) (CReadVar (s "fs"))
+           (CCallNative (s "log1") [CDynamicCall (CReadVar (s "v")) []]).
+
+(* R-1b: the key function of std.min_by_key grows the table it is called on; min works on the three
+   entries the table had at the call: the row of the smallest value, (1, 1) *)
+Definition r1b_module : module :=
+  prog [("main", fn []
+     [CSetGlobalVar (s "t") (CArray [CScalarInt 3; CScalarInt 1; CScalarInt 2]);
+      CSetGlobalVar (s "r")
+        (CCall (s "std.min_by_key")
+           [CClosure [s "k"; s "v"]
+              [CRepeat None (CScalarInt 40) (CBin BAppendTable (CScalarInt 9) (CReadVar (s "t")));
+               CUn UReturn (CReadVar (s "v"))];
+            CReadVar (s "t")])])].
+Example C01_R1_min_on_a_growing_table_repaired :
+  match globals_of (eval_program 3000 r1b_module []) with
+  | Some (KOk, g) =>
+      (assoc (s "r") g,
+       match assoc (s "t") g with Some (TrTable l) => Some (List.length l) | _ => None end)
+  | _ => (None, None)
+  end = (Some (TrTable [(TrStr (s "key"), TrInt 1); (TrStr (s "value"), TrInt 1)]), Some 123).
+Proof. vm_compute. reflexivity. Qed.
+
+(* R-2a: a captured local lies below the value left by a statement-level call when its loop-body
+   scope ends; every iteration's closure keeps its own x *)
+Definition r2a_module : module :=
+  prog [("main", fn []
+     [CSetVar (s "fs") CCreateTable;
+      CRepeat (Some (s "i")) (CScalarInt 2)
+        (CComposite (s "c")
+           [CSetVar (s "x") (CBin BAdd (CBin BMul (CReadVar (s "i")) (CScalarInt 10)) (CScalarInt 5));
+            CBin BAppendTable (CClosure [] [CUn UReturn (CReadVar (s "x"))]) (CReadVar (s "fs"));
+            CCall (s "leaf") []]);
+      print_closures]);
+     ("leaf", fn [] [CUn UReturn (CScalarInt 7)])].
+Example C01_R2a_captured_local_below_a_value_repaired :
+  log_of (eval_program 2000 r2a_module [n_log1])
+    = Some (KOk, [(n_log1, [TrInt 5]); (n_log1, [TrInt 15])])
+  /\ well_scoped r2a_module = true /\ leaky r2a_module = true.
+Proof. vm_compute. repeat split; reflexivity. Qed.
+
+(* R-2b: two captured locals in one loop body *)
+Definition r2b_module : module :=
+  prog [("main", fn []
+     [CSetVar (s "fs") CCreateTable;
+      CRepeat (Some (s "i")) (CScalarInt 2)
+        (CComposite (s "c")
+           [CSetVar (s "x") (CBin BAdd (CBin BMul (CReadVar (s "i")) (CScalarInt 10)) (CScalarInt 5));
+            CSetVar (s "y") (CBin BAdd (CBin BMul (CReadVar (s "i")) (CScalarInt 100)) (CScalarInt 50));
+            CBin BAppendTable (CClosure [] [CUn UReturn (CBin BAdd (CReadVar (s "x")) (CReadVar (s "y")))])
+                 (CReadVar (s "fs"))]);
+      print_closures])].
+Example C01_R2b_two_captured_locals_repaired :
+  log_of (eval_program 2000 r2b_module [n_log1])
+    = Some (KOk, [(n_log1, [TrInt 55]); (n_log1, [TrInt 165])])
+  /\ well_scoped r2b_module = true /\ leaky r2b_module = true.
+Proof. vm_compute. repeat split; reflexivity. Qed.
+
+(* R-3: Get past the end of a table that has an entry under the key nil: the row is (nil, nil) *)
+Definition r3_module : module :=
+  prog [("main", fn []
+     [CSetVar (s "t") CCreateTable;
+      CTri TSetProperty (CScalarInt 1) (CReadVar (s "t")) CScalarNil;
+      CCallNative (s "log1") [CBin BGet (CReadVar (s "t")) (CScalarInt 5)]])].
+Example C01_R3_get_past_the_end_repaired :
+  log_of (eval_program 500 r3_module [n_log1])
+    = Some (KOk, [(n_log1, [TrTable [(TrStr (s "key"), TrNil); (TrStr (s "value"), TrNil)]])]).
+Proof. vm_compute. reflexivity. Qed.
+
+(* R-4: the loop variable i shadows the local i; the closures name the innermost visible i *)
+Definition r4_module : module :=
+  prog [("main", fn []
+     [CSetVar (s "i") (CScalarInt 100);
+      CSetVar (s "fs") CCreateTable;
+      CRepeat (Some (s "i")) (CScalarInt 2)
+        (CBin BAppendTable (CClosure [] [CUn UReturn (CReadVar (s "i"))]) (CReadVar (s "fs")));
+      print_closures;
+      CCallNative (s "log1") [CReadVar (s "i")]])].
+Example C01_R4_closure_captures_innermost_repaired :
+  log_of (eval_program 2000 r4_module [n_log1])
+    = Some (KOk, [(n_log1, [TrInt 0]); (n_log1, [TrInt 1]); (n_log1, [TrInt 100])])
+  /\ well_scoped r4_module = true /\ shadowing r4_module = true.
+Proof. vm_compute. repeat split; reflexivity. Qed.
+
+(* R-5: `low` gets the first global slot at compile time and is never assigned; reading it after a
+   global in a higher slot was set is VarNotFound, and the globals assigned so far are visible *)
+Definition r5_module : module :=
+  prog [("main", fn []
+     [CBin BIfTrue (CScalarInt 0) (CCallNative (s "log1") [CReadVar (s "low")]);
+      CSetGlobalVar (s "g") (CScalarInt 1);
+      CCallNative (s "log1") [CReadVar (s "low")];
+      CSetGlobalVar (s "after") (CScalarInt 2)])].
+Example C01_R5_unset_global_is_VarNotFound_repaired :
+  match eval_program 500 r5_module [n_log1] with
+  | PObs o => Some (ob_kind o, ob_globals o, ob_log o)
+  | _ => None
+  end = Some (KErr EVarNotFound, [(s "g", TrInt 1)], []).
+Proof. vm_compute. reflexivity. Qed.
